@@ -141,6 +141,7 @@ type sut struct {
 	s   *state.Store
 	idx uint64
 	cfg bool
+	nid uint64   // legacy ids handed out so far (the RPC layer draws ids that are not in use)
 	ops []string // every op line sent to this store (for replays)
 }
 
@@ -163,6 +164,13 @@ func newSUT(run *hx.Run, cfg bool) *sut {
 		t.line(run, "reset legacy", "ok")
 	}
 	return t
+}
+
+// freshID returns a legacy id never used in this store before; like lib.GenerateUUID(checkIntentionID) it
+// keeps ids unique (memdb's intention-legacy-id index is declared unique and misbehaves otherwise).
+func (t *sut) freshID(r *hx.RNG) string {
+	t.nid++
+	return fmt.Sprintf("%08x-0000-0000-0000-%012x", uint32(r.U64()), t.nid)
 }
 
 func (t *sut) line(run *hx.Run, op, out string) {
@@ -937,7 +945,7 @@ func historyCase(run *hx.Run, r *hx.RNG) {
 			case roll < 74:
 				t.entdel(run, x.dst)
 			case roll < 85:
-				x.id = hx.Pick(r, idPool)
+				x.id = t.freshID(r)
 				if r.Chance(5) {
 					x.id = ""
 				}
@@ -1125,7 +1133,7 @@ func caseHistory(run *hx.Run, r *hx.RNG) {
 		case roll < 88:
 			t.entdel(run, x.dst)
 		default:
-			x.id = hx.Pick(r, idPool)
+			x.id = t.freshID(r)
 			t.lcreate(run, x)
 		}
 	}
